@@ -7,7 +7,14 @@ class DeferredCycle(Exception):
 
 
 def wait(deferred):
+    # A value that is defined in terms of itself (e.g. 'a = a' or 'a = . + a')
+    # never stops yielding further deferred values; this is detected rather
+    # than followed forever.
+    seen = []
     while isinstance(deferred, BaseDeferred):
+        if len(seen) >= 1000 or any(deferred is prev for prev in seen):
+            raise DeferredCycle()
+        seen.append(deferred)
         deferred = deferred.wait()
     return deferred
 
@@ -21,7 +28,9 @@ class TryCompute:
 
     def __exit__(self, exc_type, exc_value, exc_tb):
         self.depth -= 1
-        return exc_type is NotReadyError
+        # A cycle met while speculating is not final either: it is detected
+        # again, and reported, when the value is really needed.
+        return exc_type is NotReadyError or exc_type is DeferredCycle
 
 try_compute = TryCompute()
 
